@@ -150,7 +150,7 @@ LEVEL_TEXT = {
     "C14": "seeded simulation of hostile peers against the real listener: every Accept iteration runs under recover (a panic is a violation), every error for a hostile connection must be Temporary, a subsequent honest node must connect, non-temporary errors only after the base listener is closed or fails.",
     "C09": "seeded discrete-event simulation of rotation/re-enrollment histories over simulated years with cadences up to and including the stated bounds; invariants (never reset, roots stay trusted until the successor is valid, every node holds a valid trusted chain, ClientConfigs agrees) at probe instants around every event.",
     "C04": "seeded exploration of the full configuration product with lost-response retries and response substitution; every clause about response, certificates, server record and node storage is checked with independent crypto/x509/ecdh.",
-    "C13": "complete enumeration of single storage faults (every operation position x three error kinds) for 21 flows x 3 back ends x wrapper on/off, each in a fresh simulated world, plus sampled double faults; oracle: error without results, or success reflected in the inner back end; other nodes' records byte-identical.",
+    "C13": "complete enumeration of single storage faults (every operation position x five fault kinds: generic error, not-found, cancelled context, applied-but-reported-failed, crash-from-here-on) for 21 flows x 3 back ends x wrapper on/off, each in a fresh simulated world, plus sampled double faults; oracle: error without results, or success reflected in the inner back end; other nodes' records byte-identical.",
     "C10": "seeded exploration of rotation requests, lookup orders, corruptions, replays and rotation chains against a model recomputed from stored records with independent cryptography.",
     "C11": "seeded simulation of two parties exchanging encrypted messages over a delaying, reordering, corrupting channel across key rotations; oracle is an independent X25519/key-ID computation.",
     "C12": "seeded exploration of all writing flows with a byte-level scan of everything handed to storage, plus record-level round-trip / wrong-wrapper / misdirected-sealed-field checks for every optional-field combination.",
